@@ -146,6 +146,9 @@ func srGenHistory(rng *rand.Rand, ver string, n int) *srHist {
 	} else if rng.Intn(3) == 0 && nu > 2 {
 		cc += fmt.Sprintf(`,"additional_creators":[%q]`, h.users[1+rng.Intn(nu-1)])
 	}
+	if h.v12 && rng.Intn(10) == 0 {
+		cc += `,"additional_creators":"@u1:h"` // malformed: not a list
+	}
 	cc += "}"
 	create := h.mk(rng, spec.MRoomCreate, strp(""), h.users[0], cc, nil, nil, 1, ts0)
 	if h.v12 {
